@@ -8,9 +8,9 @@ usage: presweep.py [-j N] [--record] [seed prefixes...]     prints one line per 
 import json, os, subprocess, sys
 from multiprocessing import Pool
 V = '/verif'
-ROOT = '/tmp/sw'
+ROOT = os.environ.get('PRESWEEP_ROOT', '/tmp/sw')
 PROPS = ['C%02d' % i for i in range(1, 21)]
-REFACTOR_TAGS = ('r', 's', 't', 'u')
+REFACTOR_TAGS = ('r', 's', 't', 'u', 'p')
 
 
 def work(args):
@@ -48,6 +48,12 @@ def main():
     record = '--record' in args
     if record:
         args.remove('--record')
+    global PROPS
+    if '--props' in args:
+        i = args.index('--props'); PROPS = args[i + 1].split(','); del args[i:i + 2]
+        only = set(PROPS)
+    else:
+        only = None
     if '-j' in args:
         i = args.index('-j'); j = int(args[i + 1]); del args[i:i + 2]
     seeds = [d for d in sorted(os.listdir(V + '/seeded')) if os.path.isfile(os.path.join(V, 'seeded', d, 'patch.diff'))
@@ -63,16 +69,18 @@ def main():
     for d, caught, broken in rows:
         tag = d.split('-')[1][0]
         refactor = tag in REFACTOR_TAGS
+        mp = os.path.join(V, 'seeded', d, 'meta.json')
+        meta = json.load(open(mp))
+        k1, k2 = ('reported_by', 'reported_by_exit2') if refactor else ('caught_by', 'analysis_error_in')
+        if only is not None and caught != ['PATCH-DOES-NOT-APPLY']:
+            # partial sweep: keep what the other properties' checks said
+            caught = sorted([x for x in meta.get(k1, []) if x.split('(')[0] not in only] + caught)
+            broken = sorted([x for x in meta.get(k2, []) if x not in only] + broken)
         ok = (not caught and not broken) if refactor else (bool(caught) and not broken)
         if not ok:
             bad += 1
         if record and caught != ['PATCH-DOES-NOT-APPLY']:
-            mp = os.path.join(V, 'seeded', d, 'meta.json')
-            meta = json.load(open(mp))
-            if refactor:
-                meta['reported_by'], meta['reported_by_exit2'] = caught, broken
-            else:
-                meta['caught_by'], meta['analysis_error_in'] = caught, broken
+            meta[k1], meta[k2] = caught, broken
             json.dump(meta, open(mp, 'w'), indent=1)
         print('%-8s %-9s %s %s%s' % (d, 'refactor' if refactor else 'mutant', 'ok ' if ok else 'BAD', ' '.join(caught), (' exit2:' + ','.join(broken)) if broken else ''))
     print('seeds %d, surprises %d' % (len(rows), bad))
